@@ -40,7 +40,8 @@ def construction(repo, run, fn):
     if len(calls) != 1:
         raise AnalysisError("solve_ivp: expected one OdeSystem(...) construction")
     c = calls[0]
-    kw = {k.arg: k.value for k in c.keywords}
+    from ..front import bind_call, semantic_text
+    kw = bind_call(c, repo.get(DS, "OdeSystem.__init__"))
     sysname = src(c._parent.targets[0]) if isinstance(c._parent, ast.Assign) else "ode_system"
     # initial step: derived from options.get('first_step', ...) possibly clipped
     first = None
@@ -52,7 +53,8 @@ def construction(repo, run, fn):
         if isinstance(st, ast.Assign) and isinstance(st.targets[0], ast.Name) and isinstance(st.value, ast.Constant) and st.value.value is None:
             consts = st.targets[0].id
     for k, want in ODE_KW.items():
-        got = src(kw[k]) if k in kw else None
+        got = semantic_text(repo, kw[k]) if k in kw else None
+        want = semantic_text(repo, ast.parse(want, mode="eval").body) if not want.startswith("<") else want
         if want == "<first_step>":
             ok = got == first and first is not None
         elif want == "<constants>":
@@ -62,8 +64,6 @@ def construction(repo, run, fn):
         run.judged(rid, "OdeSystem(%s=%s)" % (k, got), ok=ok)
         if not ok:
             run.report("C18.1", DS, kw.get(k, c), "OdeSystem keyword `%s` is bound to `%s`, solve_ivp's contract binds it to %s" % (k, got, want), text="OdeSystem(%s=%s)" % (k, got))
-    if c.args:
-        run.report("C18.1", DS, c, "OdeSystem is called with positional arguments (not judged keyword by keyword)")
     # method
     ms = [st for st in fn.body if isinstance(st, ast.Assign) and src(st.targets[0]) == sysname + ".method"]
     ok = len(ms) == 1 and src(ms[0].value) == "method"
@@ -71,9 +71,14 @@ def construction(repo, run, fn):
     if not ok:
         run.report("C18.1", DS, ms[0] if ms else fn, "the integration method requested by the caller is not set on the system", text="method assignment")
     # integrate options
-    io = [st for st in fn.body if isinstance(st, ast.Assign) and isinstance(st.value, ast.Call) and dotted(st.value.func) == "dict" and
-          {k.arg for k in st.value.keywords} >= {"callback", "events"}]
-    ok = len(io) == 1 and {k.arg: src(k.value) for k in io[0].value.keywords}.get("events") == "events"
+    def _items(v):
+        if isinstance(v, ast.Call) and dotted(v.func) == "dict" and not v.args:
+            return {k.arg: src(k.value) for k in v.keywords}
+        if isinstance(v, ast.Dict) and all(isinstance(k, ast.Constant) for k in v.keys):
+            return {k.value: src(val) for k, val in zip(v.keys, v.values)}
+        return None
+    io = [st for st in fn.body if isinstance(st, ast.Assign) and _items(st.value) is not None and set(_items(st.value)) >= {"callback", "events"}]
+    ok = len(io) == 1 and _items(io[0].value).get("events") == "events"
     run.judged(rid, "integrate options carry events=events and the callback list", ok=ok)
     if not ok:
         run.report("C18.1", DS, io[0] if io else fn, "events are not passed on to integrate()", text="integration options")
@@ -84,6 +89,24 @@ def construction(repo, run, fn):
         run.judged(rid, "every integrate() call receives **%s" % optname, ok=ok2)
         if not ok2:
             run.report("C18.1", DS, ints[0] if ints else fn, "an integrate() call does not receive the integration options (events / callbacks)")
+
+
+def _is_argnames(fn, node):
+    """is ``node`` the list of positional parameter names of the (unwrapped) right-hand side: getfullargspec(f)[0] or .args, directly or through a local"""
+    from ..sym import inline_locals
+    env = inline_locals(fn)
+    k = 0
+    while isinstance(node, ast.Name) and node.id in env and k < 6:
+        node, k = env[node.id], k + 1
+    base = None
+    if isinstance(node, ast.Subscript) and isinstance(node.slice, ast.Constant) and node.slice.value == 0:
+        base = node.value
+    elif isinstance(node, ast.Attribute) and node.attr == "args":
+        base = node.value
+    k = 0
+    while isinstance(base, ast.Name) and base.id in env and k < 6:
+        base, k = env[base.id], k + 1
+    return isinstance(base, ast.Call) and (dotted(base.func) or "").endswith("getfullargspec")
 
 
 def args_binding(repo, run, fn):
@@ -97,7 +120,7 @@ def args_binding(repo, run, fn):
             a0, a1 = g.iter.args
             node = d
             if src(a1) == "args" and isinstance(a0, ast.Subscript) and isinstance(a0.slice, ast.Slice) and a0.slice.lower is not None and src(a0.slice.lower) == "2" \
-                    and a0.slice.upper is None and a0.slice.step is None and src(a0.value).endswith("[0]") and src(d.key) == src(g.target.elts[0]) and src(d.value) == src(g.target.elts[1]):
+                    and a0.slice.upper is None and a0.slice.step is None and _is_argnames(fn, a0.value) and src(d.key) == src(g.target.elts[0]) and src(d.value) == src(g.target.elts[1]):
                 ok = True
     # equivalent spelling: dict(zip(argspec[0][2:], args))
     for c in [c for c in ast.walk(fn) if isinstance(c, ast.Call) and dotted(c.func) == "dict" and len(c.args) == 1 and isinstance(c.args[0], ast.Call) and fname(c.args[0]) == "zip"]:
@@ -106,7 +129,7 @@ def args_binding(repo, run, fn):
             a0, a1 = z.args
             node = c
             if src(a1) == "args" and isinstance(a0, ast.Subscript) and isinstance(a0.slice, ast.Slice) and a0.slice.lower is not None and src(a0.slice.lower) == "2" \
-                    and a0.slice.upper is None and a0.slice.step is None and src(a0.value).endswith("[0]"):
+                    and a0.slice.upper is None and a0.slice.step is None and _is_argnames(fn, a0.value):
                 ok = True
     run.judged(rid, "constants = {name: value for name, value in zip(argspec[0][2:], args)}", ok=ok)
     if not ok:
